@@ -24,7 +24,7 @@ def prepared_graph(smiles):
     mol = Chem.MolFromSmiles(smiles)
     if mol is None:
         return None
-    for op in ('SANITIZE_ADJUSTHS', 'SANITIZE_CLEANUP', 'SANITIZE_CLEANUPCHIRALITY', 'SANITIZE_FINDRADICALS', 'SANITIZE_KEKULIZE',
+    for op in ('SANITIZE_ADJUSTHS', 'SANITIZE_CLEANUP', 'SANITIZE_CLEANUPCHIRALITY', 'SANITIZE_KEKULIZE', 'SANITIZE_FINDRADICALS',
                'SANITIZE_PROPERTIES', 'SANITIZE_SETCONJUGATION', 'SANITIZE_SETHYBRIDIZATION', 'SANITIZE_SYMMRINGS'):
         Chem.SanitizeMol(mol, sanitizeOps=getattr(Chem.rdmolops.SanitizeFlags, op))
     mol = Chem.AddHs(mol)
@@ -109,6 +109,9 @@ def job(j):
         if Chem.MolFromSmiles(smi) is None:
             out.append({'bad_smiles': True})
             continue
+        if j.get('prime'):
+            # another scheme object is asked for the same string first: the answer of `sch` must not depend on that
+            decomp(get_scheme(j['prime']), smi)
         r['impl'] = decomp(sch, smi)
         if j.get('graph'):
             r['graph'] = prepared_graph(smi)
